@@ -314,6 +314,12 @@ def L3(ctx):
                 took.append(b)
             if t["k"] == "call" and callee_path(t) == "std::mem::drop" and t["args"] and taken(body.expr_of_operand(t["args"][0])):
                 took.append(b)
+            # the std guard kept in a `ManuallyDrop` and destroyed explicitly (`ManuallyDrop::drop(&mut self.data)`), or through
+            # `ptr::drop_in_place(&mut self.data)`
+            if t["k"] == "call" and callee_path(t).split("::")[-1] in ("drop", "drop_in_place") and \
+                    ("ManuallyDrop" in callee_path(t) or "ptr::drop_in_place" in callee_path(t)) and t["args"] and \
+                    mentions_field(body.expr_of_operand(t["args"][0]), gadt, "data") is not None:
+                took.append(b)
         good = bool(rels) and (bool(clear) or bool(took))
         for rb in rels:
             by_assign = any((w["bb"] in dom.get(rb, ())) for w in clear) and any(d in dom.get(rb, ()) for d in dropped)
